@@ -129,7 +129,8 @@ def message(draw, allow_update=True, big_ok=True, sections_max=3):
     desc = {"id": draw(st.integers(0, 65535)), "flags": flags, "origin": None if origin is None else G.hexl(origin), "update": None}
     if kind == "update":
         zone = origin if origin is not None else draw(st.sampled_from(pool))
-        desc["update"] = {"zone": G.hexl(zone), "zone_class": 1, "ops": draw(update_ops(pool, origin))}
+        zc = draw(st.sampled_from([1, 1, 1, 3, 4]))  # IN, CH, HS
+        desc["update"] = {"zone": G.hexl(zone), "zone_class": zc, "ops": draw(update_ops(pool, origin, zc))}
         desc["question"] = []
         desc["sections"] = [[], [], []]
     else:
@@ -159,7 +160,7 @@ def message(draw, allow_update=True, big_ok=True, sections_max=3):
 
 
 @st.composite
-def update_ops(draw, pool, origin):
+def update_ops(draw, pool, origin, zone_class=1):
     ops = []
     n = draw(st.integers(0, 6))
     ctx = {"pool": pool}
@@ -168,7 +169,12 @@ def update_ops(draw, pool, origin):
     for _ in range(n):
         op = draw(st.sampled_from(["add", "add", "delete_name", "delete_type", "delete_rdata", "replace", "present_name", "present_type", "present_rdata", "absent_name", "absent_type"]))
         nm = G.hexl(draw(owner(pool, origin)))
-        tname = draw(st.sampled_from(["A", "TXT", "MX", "NS", "AAAA", "SRV", "CNAME"]))
+        if zone_class == 1:
+            tname = draw(st.sampled_from(["A", "TXT", "MX", "NS", "AAAA", "SRV", "CNAME"]))
+        elif zone_class == 3:
+            tname = draw(st.sampled_from(["CH_A", "CH_A", "TXT", "MX", "NS", "CNAME"]))  # CH A is class-specific
+        else:
+            tname = draw(st.sampled_from(["TXT", "MX", "NS", "CNAME"]))
         rds = [draw(R.record(ctx=ctx, name=tname))["wire"] for _ in range(draw(st.integers(1, 2)))]
         ttl = draw(st.sampled_from([0, 300, 86400]))
         ops.append([op, nm, ttl, tname, sorted(set(rds))])
